@@ -183,11 +183,11 @@ def judge(res, case, r, rec, maxlen, declared, blen, full_chunks, R):
             if full_chunks and full_chunks > 0 and i_ret is not None and i_cl < i_ret:
                 early = True
             if early:
-                v('ctx_closed_before_handover' if case['req'] != 'wsdl' else 'wsdl_ctx_closed_before_handover',
+                v('ctx_closed_before_handover' if not case['req'].startswith('wsdl') else 'wsdl_ctx_closed_before_handover',
                   'method_context_closed fired at event %d, before the body was handed over (events: %s)' % (
                       i_cl, ' '.join(ev.names())))
         nwc = ev.count('wsgi_close')
-        if case['req'] != 'wsdl' and nwc != 1:
+        if not case['req'].startswith('wsdl') and nwc != 1:
             v('wsgi_close_count', 'wsgi_close fired %d times' % nwc)
     return viol
 
@@ -232,6 +232,9 @@ def run(spec, R):
                                        content_type=reqs[0][1]['content_type'])))
         reqs.append(('empty_body', dict(method='POST', path='/', qs='', body=b'', content_type=reqs[0][1]['content_type'])))
     reqs.append(('wsdl', dict(method='GET', path='/', qs='wsdl', body=b'', content_type=None)))
+    # injected faults on the ?wsdl path: the interface document cannot be built / there is none
+    reqs.append(('wsdl_build_fails', dict(method='GET', path='/', qs='wsdl', body=b'', content_type=None)))
+    reqs.append(('wsdl_disabled', dict(method='GET', path='/', qs='wsdl', body=b'', content_type=None)))
     if tier == 'thorough':
         for i in range(6):
             n = rng.randint(0, 900)
@@ -244,6 +247,15 @@ def run(spec, R):
         grid = limit_grid(blen, tier, rng) if blen else [(2 * 1024 * 1024, 8 * 1024), (64, 16)]
         for maxlen, block in grid:
             w = get_w(maxlen, block)
+            if rname in ('wsdl_build_fails', 'wsdl_disabled'):
+                w = build_wsgi(kind, chunked, maxlen, block, rec, box)      # an application of its own: the fault stays with it
+                if rname == 'wsdl_build_fails':
+                    def failing_build(url):
+                        raise RuntimeError('injected: interface document cannot be built')
+                    w.doc.wsdl11.build_interface_document = failing_build
+                else:
+                    w.doc.wsdl11 = None
+                R.count('wsdl_faults_injected')
             cls_list = cl_classes(blen, maxlen) if breq['method'] == 'POST' else [('absent', None)]
             for clname, cl in cls_list:
                 case = {'kind': kind, 'chunked': chunked, 'req': rname, 'max': maxlen, 'block': block, 'cl': clname,
